@@ -371,6 +371,137 @@ Proof.
   - exists l. split; [exact Hl|]. intros r n. rewrite Hs. apply save_tagged.
 Qed.
 
+(* ---------- crashes: the index a reopened store loads is well-formed, so it agrees again ---------- *)
+Lemma save_untagged tags digs n : In (n, None) (save tags digs) <-> In n digs /\ forall r, ~ In (r, n) tags.
+Proof.
+  unfold save. rewrite in_app_iff. split.
+  - intros [Hin|Hin].
+    + apply in_map_iff in Hin as ([r' n'] & E & _). discriminate.
+    + apply in_map_iff in Hin as (d & E & Hf). injection E as ->. apply filter_In in Hf as [Hd Hb].
+      split; [exact Hd|]. intros r Hr. apply negb_true_iff in Hb.
+      assert (X : existsb (fun e : N * N => snd e =? n) tags = true).
+      { apply existsb_exists. exists (r, n). split; [exact Hr|]. cbn. apply N.eqb_refl. }
+      congruence.
+  - intros [Hd Hn]. right. apply in_map_iff. exists n. split; [reflexivity|]. apply filter_In. split; [exact Hd|].
+    apply negb_true_iff. destruct (existsb (fun e : N * N => snd e =? n) tags) eqn:E; [|reflexivity].
+    apply existsb_exists in E as ([r' n'] & Hin & He). cbn in He. apply N.eqb_eq in He. subst n'.
+    exfalso. exact (Hn r' Hin).
+Qed.
+
+Definition wf (l : list entry) : Prop :=
+  (forall r n n', In (n, Some r) l -> In (n', Some r) l -> n = n') /\
+  (forall n r, In (n, None) l -> ~ In (n, Some r) l).
+
+Lemma wf_same l tags digs :
+  same_as l tags digs -> (forall r n n', In (r, n) tags -> In (r, n') tags -> n = n') -> wf l.
+Proof.
+  intros Hs Hf. split.
+  - intros r n n' H1 H2. apply Hs in H1, H2. apply save_tagged in H1, H2. exact (Hf r n n' H1 H2).
+  - intros n r H1 H2. apply Hs in H1, H2. apply save_untagged in H1 as [_ H1]. apply save_tagged in H2. exact (H1 r H2).
+Qed.
+
+Lemma agree_reopen fs cnt l : read_index fs = Some l -> wf l -> Agree (reopen fs cnt).
+Proof.
+  intros Hl [Hfl W2]. unfold reopen. rewrite Hl. exists l. split; [exact Hl|].
+  destruct (load_spec H l [] []) as (A1 & A2 & _ & A4); [intros r n []|].
+  intros [n [r|]]; cbn [sfs stags sdigs].
+  - rewrite save_tagged. rewrite (load_named l [] [] Hfl r n). split; [intro X; now left|intros [X|[[] _]]; exact X].
+  - rewrite save_untagged. split.
+    + intro Hin. split; [exact (A4 (n, None) Hin)|]. intros r Hr.
+      apply (load_named l [] [] Hfl r n) in Hr as [Hr|[[] _]]. exact (W2 n r Hin Hr).
+    + intros [Hd Hn]. apply A2 in Hd as [[]|(x & Hx)]. destruct x as [r|]; [|exact Hx].
+      exfalso. apply (Hn r). apply (load_named l [] [] Hfl r n). now left.
+Qed.
+
+Lemma agree_wf s : Inv H s -> Agree s -> forall l, read_index (sfs s) = Some l -> wf l.
+Proof.
+  intros I (l0 & Hl0 & Hs) l Hl. rewrite Hl0 in Hl. injection Hl as <-.
+  exact (wf_same l0 _ _ Hs (inv_fun H s I)).
+Qed.
+
+Lemma agree_hop s x : Inv H s -> Agree s -> Agree (run_hop H shuffle false false true s x).
+Proof.
+  intros I A. destruct (op_safe H shuffle shuffle_In s (match x with Done o => o | Crashed o _ => o end) I) as (I1 & A1 & _ & R).
+  destruct x as [o|o k]; cbn [run_hop]; [now apply A1|].
+  destruct (R k) as (_ & _ & (l & Hl & _) & RI & _).
+  apply (agree_reopen _ _ l Hl).
+  destruct RI as [RI|RI]; rewrite Hl in RI; symmetry in RI.
+  - exact (agree_wf s I A l RI).
+  - exact (agree_wf _ I1 (A1 A) l RI).
+Qed.
+
+Lemma agree_runc h : forall s, Inv H s -> Agree s -> Agree (runc H shuffle false false true h s).
+Proof.
+  induction h as [|x h IH]; intros s I A; [exact A|].
+  cbn [runc fold_left]. apply IH; [now apply inv_run_hop|now apply agree_hop].
+Qed.
+
+(* index.json and every snapshot, at every point of every schedule *)
+Definition WInv (c : conf) : Prop :=
+  (forall l, read_index (cfs c) = Some l -> wf l) /\
+  forall t, In t (cthreads c) -> forall l, tsnap t = Some l -> wf l.
+
+Lemma wstep_inv s c i : KInv s c -> WInv c -> WInv (stepN c i).
+Proof.
+  intros K [D T]. unfold sched_step.
+  destruct (nth_error (cthreads c) i) as [t|] eqn:En; [|now split].
+  pose proof (T t (nth_error_In _ _ En)) as Tt. unfold fire.
+  destruct (tprog t) as [|a rest]; [now split|].
+  assert (Others : forall t', (forall l, tsnap t' = Some l -> wf l) ->
+            forall u, In u (set_nth i t' (cthreads c)) -> forall l, tsnap u = Some l -> wf l).
+  { intros t' Ht' u Hin. apply In_set_nth in Hin as [->|Hin]; [exact Ht'|now apply T]. }
+  destruct a; cbv beta iota zeta;
+    try (split; cbn [cfs cthreads]; [exact D|apply Others; cbn [tsnap]; exact Tt]).
+  - destruct (clock c); [now split|]. split; cbn [cfs cthreads]; [exact D|].
+    apply Others. cbn [tsnap]. intros l E. injection E as <-.
+    apply (wf_same _ (ctags c) (cdigs c)); [intro e; apply shuffle_In|exact (ki_fun _ _ K)].
+  - destruct (tsnap t) as [l|] eqn:Es.
+    + split; cbn [cfs cthreads].
+      * intros l0 E. change (Some l = Some l0) in E. injection E as <-. exact (Tt l eq_refl).
+      * apply Others. cbn [tsnap]. intros l0 E. injection E as <-. exact (Tt l eq_refl).
+    + split; cbn [cfs cthreads]; [exact D|]. apply Others. cbn [tsnap]. intros l0 E. discriminate.
+  - split; cbn [cfs cthreads]; [exact D|]. apply Others. cbn [tsnap]. intros l0 E. discriminate.
+Qed.
+
+Lemma wsched_inv s is : forall c, KInv s c -> WInv c -> WInv (sched shuffle c is).
+Proof.
+  induction is as [|i is IH]; intros c K W; [exact W|].
+  cbn [sched fold_left]. apply IH; [now apply kstep_inv|now apply (wstep_inv s)].
+Qed.
+
+Lemma start_kinv s calls : Inv H s -> KInv s (start H s calls).
+Proof. intro I. constructor; cbn [start cfs ctags ccnt]; [reflexivity|lia|exact (inv_fun H s I)]. Qed.
+
+(* a batch killed after any prefix of any schedule, and the store reopened *)
+Theorem conc_reopen s calls is :
+  Inv H s -> Agree s ->
+  let c := sched shuffle (start H s calls) is in
+  Inv H (reopen (cfs c) (S (ccnt c))) /\ Agree (reopen (cfs c) (S (ccnt c))).
+Proof.
+  intros I A c.
+  destruct (sched_inv H shuffle shuffle_In is _ (start_cinv s calls I)) as [L B (l & Hl & He) _ _ _]. fold c in L, B, Hl, He.
+  pose proof (ksched_inv s is _ (start_kinv s calls I)) as K. fold c in K.
+  assert (W0 : WInv (start H s calls)).
+  { split; cbn [start cfs cthreads].
+    - exact (agree_wf s I A).
+    - intros t Hin l0 E. apply in_map_iff in Hin as (x & <- & _). discriminate. }
+  destruct (wsched_inv s is _ (start_kinv s calls I) W0) as [WD _]. fold c in WD.
+  pose proof (WD l Hl) as W. split; [|exact (agree_reopen _ _ l Hl W)].
+  destruct W as [Hfl _]. destruct K as [KT KC KF].
+  unfold reopen. rewrite Hl.
+  destruct (load_spec H l [] []) as (A1 & A2 & _ & A4); [intros r n []|].
+  constructor; cbn [sfs stags sdigs sctr].
+  - exact L.
+  - exact B.
+  - exact A1.
+  - intros n Hin. apply A2 in Hin as [[]|(r & Hin)]. exact (He (n, r) Hin).
+  - intros p Hp Hq. rewrite KT by exact Hp. apply (inv_temp H s I p Hp). lia.
+  - exists l. split; [exact Hl|exact A4].
+  - apply load_fun. intros r n n' [].
+  - exists l. split; [exact Hl|]. intros r n. rewrite (load_named l [] [] Hfl r n).
+    split; [intro X; now left|intros [X|[[] _]]; exact X].
+Qed.
+
 (* ---------- alternating phases ---------- *)
 Lemma phases_inv ps : forall s,
   Inv H s -> Agree s -> phases_quiet H shuffle false false s ps = true ->
@@ -378,9 +509,10 @@ Lemma phases_inv ps : forall s,
 Proof.
   induction ps as [|p ps IH]; intros s I A Q; [now split|].
   cbn [phases_quiet] in Q. apply andb_true_iff in Q as [Q1 Q2].
-  cbn [run_phases fold_left]. destruct p as [h|calls is]; cbn [run_phase] in *.
-  - apply IH; [now apply inv_run|now apply agree_run|exact Q2].
+  cbn [run_phases fold_left]. destruct p as [h|calls is|calls is]; cbn [run_phase] in *.
+  - apply IH; [now apply inv_runc|now apply agree_runc|exact Q2].
   - destruct (quiet_inv s calls is I A (quietb_quiet _ Q1)) as [I' A']. apply IH; assumption.
+  - destruct (conc_reopen s calls is I A) as [I' A']. apply IH; assumption.
 Qed.
 
 Theorem phases_synced ps :
@@ -441,9 +573,10 @@ Qed.
 (* the hypotheses are satisfiable: a push, two concurrent Tag calls under some schedule that lets
    both return, an Untag, a concurrent SaveIndex and Push of the blob that exists *)
 Lemma phases_example :
-  let ps := [PSeq [Push 1 [5] true];
+  let ps := [PSeq [Done (Push 1 [5] true)];
              PConc [CTag 1 10; CTag 1 11] [0; 0; 1; 1; 0; 0; 1; 1; 1; 1]%nat;
-             PSeq [Untag 10];
+             PSeq [Crashed (Untag 10) 1; Done (Untag 10)];
+             PConcCrash [CTag 1 12; CSaveIndex] [0; 1; 0]%nat;
              PConc [CPush 1 [6] false; CSaveIndex] [1; 0; 1; 0; 1; 0]%nat] in
   phases_quiet (fun _ => 1) (fun _ l => l) src_inplace src_unlink_first init ps = true /\
   read_index (sfs (run_phases (fun _ => 1) (fun _ l => l) src_inplace src_unlink_first init ps)) = Some [(1, Some 11)].
